@@ -51,7 +51,7 @@ fn env_or(name: &str, default: &str) -> String {
 pub fn make_env(cfg: &Cfg) -> Env {
     let mut host_bins = Vec::new();
     for b in [Backend::Syn1, Backend::Syn2] {
-        for k in [Build::Plain, Build::Hooked, Build::PlainB] {
+        for k in [Build::Plain, Build::Hooked, Build::PlainB, Build::Atom] {
             let p = cfg.build_dir.join(format!("target-{}-{}/debug/simhost", b.tag(), k.tag()));
             if p.exists() {
                 host_bins.push(((b, k), p));
@@ -567,7 +567,7 @@ fn plan_opts(cfg: &Cfg, env: &Env, feedback: &[String], fs_feedback: &[String]) 
 
 fn plan_opts_pool(cfg: &Cfg, env: &Env, feedback: &[String], fs_feedback: &[String], seam_pool: &[(item::Item, gen::Class, u32)]) -> PlanOpts {
     let hooked_available = env.host_bin(Backend::Syn1, Build::Hooked).is_some() && env.host_bin(Backend::Syn2, Build::Hooked).is_some();
-    PlanOpts { backend: cfg.backend, build: cfg.build, hooked_available, feedback: feedback.to_vec(), fs_feedback: fs_feedback.to_vec(), cwds: vec!["/".into(), "/tmp".into(), cfg.build_dir.to_string_lossy().into_owned(), cfg.repo.to_string_lossy().into_owned()], max_inputs: if cfg.tier == "thorough" { 32 } else { 20 }, seam_pool: seam_pool.to_vec(), ultra_index: None }
+    PlanOpts { backend: cfg.backend, build: cfg.build, hooked_available, atom_available: env.host_bin(Backend::Syn1, Build::Atom).is_some() && env.host_bin(Backend::Syn2, Build::Atom).is_some(), feedback: feedback.to_vec(), fs_feedback: fs_feedback.to_vec(), cwds: vec!["/".into(), "/tmp".into(), cfg.build_dir.to_string_lossy().into_owned(), cfg.repo.to_string_lossy().into_owned()], max_inputs: if cfg.tier == "thorough" { 32 } else { 20 }, seam_pool: seam_pool.to_vec(), ultra_index: None }
 }
 
 fn run_batch(env: &Env, cfg: &Cfg, corpus: &corpus::Corpus, po: &PlanOpts, indices: &[usize], jobs: usize) -> Vec<WorldOutcome> {
@@ -1140,7 +1140,7 @@ fn cmd_run(cfg: &Cfg) -> i32 {
                 "distinct_history_prefix_lengths": total.prefix_lengths.len(),
                 "heap_perturbation_events": total.perturb_events,
                 "order_policy_events": total.order_policy_events,
-                "concurrent_pairs_executed": total.concurrent_pairs, "scheduler_switches_inside_pairs": total.scheduler_switches, "scheduling_points_offered_heap_allocations_and_blocking_waits": total.scheduling_points,
+                "concurrent_pairs_executed": total.concurrent_pairs, "scheduler_switches_inside_pairs": total.scheduler_switches, "scheduling_points_offered_heap_allocations_blocking_waits_atomic_operations": total.scheduling_points,
                 "ultra_marathon_worlds_65536_plus_expansions_in_one_process": n_ultra, "expansions_in_ultra_marathons": ultra_expansions, "marathon_hosts_ge250_expansions": total.marathon_hosts, "longest_history_expansions": total.longest_history,
                 "entropy_requests_served_by_shim": total.getrandom_calls, "entropy_bytes_served": total.getrandom_bytes,
             },
